@@ -91,7 +91,7 @@ def parse_prior(s):
     return v, e
 
 
-def gls(case, xs, ys, fb, priors):
+def gls(case, xs, ys, fb, priors, ctx=None):
     """closed form: returns (parameters as Q objects, chisq, dof)"""
     keys = sorted(xs)
     npar = case['npar']
@@ -130,6 +130,23 @@ def gls(case, xs, ys, fb, priors):
     phat = S @ yv
     res = yv - A @ phat
     chisq = float(res @ W @ res)
+    # the closed form in exact rational arithmetic (Lean model PV.Model.Gls, checked normal equations):
+    # estimator, sensitivities and chi-square of exactly these A, W, y
+    if ctx is not None and ctx.lean is not None:
+        from fractions import Fraction
+        from pe_util import q2j
+        rr = ctx.lean.call({'op': 'gls', 'A': [[q2j(float(v)) for v in row] for row in A], 'W': [[q2j(float(v)) for v in row] for row in W],
+                            'y': [q2j(float(v)) for v in yv]})
+        if '_err' in rr or 'exc' in rr:
+            ctx.count('exact-gls-unavailable')
+        else:
+            pL = np.array([float(Fraction(a_, b_)) for a_, b_ in rr['p']])
+            SL = np.array([[float(Fraction(a_, b_)) for a_, b_ in row] for row in rr['S']])
+            cL = float(Fraction(*rr['chisq']))
+            ctx.residual('numpy_vs_exact_gls_estimator', float(np.max(np.abs(pL - phat) / (np.abs(pL) + 1e-300))))
+            ctx.residual('numpy_vs_exact_gls_sensitivity', float(np.max(np.abs(SL - S)) / max(np.max(np.abs(SL)), 1e-300)))
+            phat, S, chisq = pL, SL, cL
+            ctx.count('exact-gls')
     qs = [Q.of(o) for o in yobs] + [Q.of(o) for o in pobs]
     params = []
     for i in range(npar):
@@ -223,7 +240,7 @@ def check_case(ctx, case):
         if case['correlated'] and case['priors']:
             # correlated fits treat prior rows as uncorrelated extra rows: same closed form
             pass
-        params, chisq, dof, phat = gls(case, xs if case['combined'] else {keys[0]: xs[keys[0]]}, ys if case['combined'] else {keys[0]: ys[keys[0]]}, fb, priors)
+        params, chisq, dof, phat = gls(case, xs if case['combined'] else {keys[0]: xs[keys[0]]}, ys if case['combined'] else {keys[0]: ys[keys[0]]}, fb, priors, ctx)
         loose = case['method'] in ('Nelder-Mead', 'Powell')
         [p.gamma_method() for p in res.fit_parameters]
         for i in range(npar):
